@@ -13,6 +13,8 @@ import (
 	"os"
 	"sort"
 	"strings"
+
+	"github.com/6tail/lunar-go/calendar"
 )
 
 type obj map[string]interface{}
@@ -126,6 +128,25 @@ func (c *ctx) yearsFor(boundary []int, nQuick int, lo, hi int) []int {
 	for _, y := range boundary {
 		if y >= lo && y <= hi {
 			set[y] = true
+		}
+	}
+	// years the library itself treats as special: the ends of its tables of years with a leap 11th / 12th month
+	// (and the year after each, whose table must agree), plus two seeded entries of each table
+	rt := rand.New(rand.NewSource(c.seed*104729 + 5))
+	for _, tab := range [][]int{calendar.LEAP_11, calendar.LEAP_12} {
+		pick := []int{}
+		if n := len(tab); n > 0 {
+			pick = append(pick, tab[0], tab[n-1], tab[rt.Intn(n)], tab[rt.Intn(n)])
+			if n > 1 {
+				pick = append(pick, tab[n-2])
+			}
+		}
+		for _, y := range pick {
+			for _, z := range []int{y, y + 1} {
+				if z >= lo && z <= hi {
+					set[z] = true
+				}
+			}
 		}
 	}
 	if c.tier == "thorough" {
